@@ -16,6 +16,8 @@ const resBody = `
     access(all) var child: @{N}?
     access(all) var kids: @[{N}]
     access(all) var dict: @{Int: {N}}
+    access(all) var opts: @[{N}?]
+    access(all) var odict: @{Int: {N}?}
     init(_ id: Int, _ pad: Int) {
       self.id = id
       var p = ""
@@ -23,7 +25,18 @@ const resBody = `
       while i < pad { p = p.concat("0123456789abcdefghijklmnopqrstuvwxyzABCDEFGHIJKLMNOPQRSTUVWXYZ-+"); i = i + 1 }
       self.pad = p
       self.child <- nil; self.kids <- []; self.dict <- {}
+      // containers of OPTIONAL resources: two array cells and dictionary entries that hold nil
+      // (keys 3..6 are never used, so nil-valued entries stay around the used keys 1 and 2)
+      self.opts <- [nil, nil]; self.odict <- {1: nil, 2: nil, 3: nil, 4: nil, 5: nil, 6: nil}
     }
+    access(all) fun setCell(_ i: Int, _ c: @{N}) { self.opts[i] <-! c }
+    access(all) fun takeCell(_ i: Int): @{N} { let c <- self.opts[i] <- nil; return <- c! }
+    access(all) fun swapCell(_ i: Int, _ c: @{N}): @{N} { let old <- self.opts[i] <- c; return <- old! }
+    access(all) view fun cellRef(_ i: Int): &{N}? { return &self.opts[i] as &{N}? }
+    access(all) fun setOD(_ k: Int, _ c: @{N}) { let old <- self.odict[k] <- c; destroy old }
+    access(all) fun takeOD(_ k: Int): @{N} { let n: @{N}? <- nil; let old <- self.odict[k] <- n; return <- old!! }
+    access(all) fun swapOD(_ k: Int, _ c: @{N}): @{N} { let old <- self.odict[k] <- c; return <- old!! }
+    access(all) view fun odRef(_ k: Int): &{N}? { let r = &self.odict[k] as &{N}??; return r ?? nil }
     access(all) fun setChild(_ c: @{N}) { self.child <-! c }
     access(all) fun takeChild(): @{N} { let c <- self.child <- nil; return <- c! }
     access(all) fun swapChild(_ c: @{N}): @{N} { let old <- self.child <- c; return <- old! }
@@ -42,7 +55,11 @@ const resBody = `
       for key in [1, 2, 3, 4] {
         if let d = &self.dict[key] as &{N}? { s = s.concat(key.toString()).concat(":").concat(d.desc()).concat(",") }
       }
-      return s.concat("}")
+      s = s.concat("}<")
+      for i in [0, 1] { if let c = self.cellRef(i) { s = s.concat(c.desc()) } else { s = s.concat("-") }; s = s.concat(",") }
+      s = s.concat("|")
+      for k in [1, 2] { if let c = self.odRef(k) { s = s.concat(c.desc()) } else { s = s.concat("-") }; s = s.concat(",") }
+      return s.concat(">")
     }
     access(all) fun walk(_ pfx: String): [String] {
       var out: [String] = [self.id.toString().concat("=").concat(self.uuid.toString()).concat("@").concat(pfx)]
@@ -53,6 +70,8 @@ const resBody = `
         let d = (&self.dict[key] as &{N}?)!
         out.appendAll(d.walk(pfx.concat(".dict[").concat(key.toString()).concat("]")))
       }
+      for j in [0, 1] { if let c = self.cellRef(j) { out.appendAll(c.walk(pfx.concat(".opts[").concat(j.toString()).concat("]"))) } }
+      for k in [1, 2] { if let c = self.odRef(k) { out.appendAll(c.walk(pfx.concat(".odict[").concat(k.toString()).concat("]"))) } }
       return out
     }
 `
@@ -64,6 +83,8 @@ access(all) contract T {
     access(all) var child: @{N}?
     access(all) var kids: @[{N}]
     access(all) var dict: @{Int: {N}}
+    access(all) var opts: @[{N}?]
+    access(all) var odict: @{Int: {N}?}
     access(all) fun setChild(_ c: @{N})
     access(all) fun takeChild(): @{N}
     access(all) fun swapChild(_ c: @{N}): @{N}
@@ -71,6 +92,14 @@ access(all) contract T {
     access(all) fun takeKid(_ i: Int): @{N}
     access(all) fun swapKid(_ i: Int, _ c: @{N}): @{N}
     access(all) fun putDict(_ k: Int, _ c: @{N})
+    access(all) fun setCell(_ i: Int, _ c: @{N})
+    access(all) fun takeCell(_ i: Int): @{N}
+    access(all) fun swapCell(_ i: Int, _ c: @{N}): @{N}
+    access(all) view fun cellRef(_ i: Int): &{N}?
+    access(all) fun setOD(_ k: Int, _ c: @{N})
+    access(all) fun takeOD(_ k: Int): @{N}
+    access(all) fun swapOD(_ k: Int, _ c: @{N}): @{N}
+    access(all) view fun odRef(_ k: Int): &{N}?
     access(all) fun takeDict(_ k: Int): @{N}
     access(all) fun swapDict(_ k: Int, _ c: @{N}): @{N}
     access(all) view fun desc(): String
